@@ -371,4 +371,29 @@ def guardMain (u : U) (g : String) : Bool :=
   else if g = "interval_sleep.not_paused" then !u.is.paused
   else false
 
+/-- whether this expiry is the last one (`will_terminate`), evaluated after the hit has been counted -/
+def willTerminate (c : Cfg) (u : U) : Bool :=
+  match c.terminateAfter with
+  | some k => decide (k ≤ u.hits)
+  | none => false
+
+/-- the `interval_sleep` branch of the main loop (tools/extract.py group `interval`) -/
+def applyInterval (c : Cfg) (u : U) (a : String) : U × List Act :=
+  if a = "mark_slow" then ({ u with slow := true }, [])
+  else if a = "hit" then ({ u with hits := u.hits + 1 }, [])
+  else if a = "emit_slow" then (u, [.slow (u.hits * c.period) (willTerminate c u)])
+  else if a = "terminate:Timeout" then beginTerminate c u .timeout (timeoutSignal c.grace)
+  else if a = "status:Timeout" then ({ u with timedOut := true }, [])
+  else if a = "break_wait" then (u, [])
+  else if a = "rearm" then ({ u with is := { u.is with remaining := c.period } }, [])
+  else (u, [.panic])
+
+def guardInterval (c : Cfg) (u : U) (g : String) : Bool :=
+  if g = "" then true
+  else if g = "grace_nonzero" then decide (c.grace ≠ 0)
+  else if g = "will_terminate" then willTerminate c u
+  else if g = "will_terminate&grace_zero" then willTerminate c u && decide (c.grace = 0)
+  else if g = "not_will_terminate" then !willTerminate c u
+  else false
+
 end NextestModel.Unit
